@@ -21,8 +21,8 @@ import (
 	"strings"
 	"testing"
 
-	kit "github.com/cloudflare/circl/internal/verifref/c02kit"
 	"github.com/cloudflare/circl/internal/verifmc"
+	kit "github.com/cloudflare/circl/internal/verifref/c02kit"
 	"github.com/cloudflare/circl/sign"
 	dil2 "github.com/cloudflare/circl/sign/dilithium/mode2"
 	dil3 "github.com/cloudflare/circl/sign/dilithium/mode3"
